@@ -26,6 +26,7 @@ ASSUMPTIONS_PART2 = ['filter -line-nums: a Python iterator of lines is modelled 
 
 WORK_PROP = 'C13'  # work directory / shard prefix (the development driver uses its own)
 UNKNOWN_ID = 999999  # an output line that is not one of the input lines
+UNKNOWN_LM_ID = 99  # same, for the `filter LINE-MATCHER` cases (ids are indices into c13.CONTENTS)
 
 
 # ---- ranges: ('s', n) ('l', lo) ('u', hi) ('b', lo, hi)
@@ -125,10 +126,21 @@ class LnImpl:
         return ids_of_output(out), None
 
 
+SUPPLIES = ['file', 'here', 'stdout', 'run', 'chain-identity', 'chain-upper']
+# how the text reaches the filter:        source                                   transformers before the filter
+#   file            an existing file      -contents-of -rel-act inK.txt
+#   here            here-document         <<EOF .. EOF
+#   stdout          program output        -stdout-from % cat inK.txt
+#   run             a `run` transformer   -contents-of -rel-act inK.txt            VIA_PROGRAM (= run % cat)
+#   chain-identity  previous transformer  -contents-of -rel-act inK.txt            identity
+#   chain-upper     previous transformer  -contents-of -rel-act inK.txt            char-case -to-upper (texts are upper case)
+
+
 class E2E:
-    """The whole program, in process: a test case file whose [setup] phase writes texts and filters them with
-    `file outK.txt = -contents-of -rel-act inK.txt -transformed-by filter -line-nums RANGE...`; the sandbox is
-    kept (--keep) and the output files are read from it."""
+    """The whole program, in process: a test case file whose [setup] phase supplies texts in the ways the program
+    can supply a text (SUPPLIES) and filters them: `file outK.txt = SOURCE -transformed-by ( [PREVIOUS |] filter ... )`;
+    the sandbox is kept (--keep) and the output files are read from it.  A control file per text (the same supply
+    without the filter) decides whether a failure can be attributed to the filter."""
 
     def __init__(self, root):
         self.root = root
@@ -136,15 +148,25 @@ class E2E:
         self.mp = impl.main_program(root, on_create=self.created.append)
 
     @staticmethod
-    def case_text(ranges, lengths, control_only=False):
-        lines = ['[setup]']
-        for j, n in enumerate(lengths):
-            lines.append('file in%d.txt = <<EOF' % j)
-            lines += ['L%d' % i for i in range(1, n + 1)]
-            lines.append('EOF')
-            lines.append('file ctl%d.txt = -contents-of -rel-act in%d.txt' % (j, j))
+    def case_text(fsrc, texts, supplies, control_only=False):
+        lines = ['[setup]', 'def text-transformer VIA_PROGRAM = run % cat']
+        for j, (text, sup) in enumerate(zip(texts, supplies)):
+            assert text == '' or text.endswith('\n')
+            body = text.split('\n')[:-1]
+            here = ['<<EOF'] + body + ['EOF']
+            lines += ['file in%d.txt = %s' % (j, here[0])] + here[1:]
+            src = {'here': '\n'.join(here), 'stdout': '-stdout-from % cat in' + str(j) + '.txt'}.get(
+                sup, '-contents-of -rel-act in%d.txt' % j)
+            prev = {'run': 'VIA_PROGRAM', 'chain-identity': 'identity', 'chain-upper': 'char-case -to-upper'}.get(sup)
+            lines.append('file ctl%d.txt = %s' % (j, src))
+            if prev:
+                lines.append('  -transformed-by %s' % prev)
             if not control_only:
-                lines.append('file out%d.txt = -contents-of -rel-act in%d.txt -transformed-by %s' % (j, j, filter_src(ranges)))
+                lines.append('file out%d.txt = %s' % (j, src))
+                if prev:
+                    lines += ['  -transformed-by ( %s | %s' % (prev, fsrc), '  )']
+                else:
+                    lines.append('  -transformed-by %s' % fsrc)
         return '\n'.join(lines) + '\n'
 
     def _exec(self, text):
@@ -161,39 +183,54 @@ class E2E:
         for d in self.created:
             shutil.rmtree(d, ignore_errors=True)
 
-    def run(self, ranges, lengths):
-        """-> runs [(n, True, 'main-program', ids | None, detail)], or None if the program cannot even copy the texts
-        without the filter (control: not attributed to `filter -line-nums`)."""
+    def run_texts(self, fsrc, texts, supplies):
+        """-> [(output text | None, detail)] per text, or None if the program cannot even supply the texts without
+        the filter (control: not attributed to `filter`)."""
         import os
-        ok, r = self._exec(self.case_text(ranges, lengths))
-        runs = []
+        ok, r = self._exec(self.case_text(fsrc, texts, supplies))
         if not ok:
             detail = 'exit code %s, stdout %r, exception %r' % (r.exit_code, r.out[-200:], r.exception)
             self._cleanup()
-            ok_ctl, _ = self._exec(self.case_text(ranges, lengths, control_only=True))
+            ok_ctl, _ = self._exec(self.case_text(fsrc, texts, supplies, control_only=True))
             self._cleanup()
             if not ok_ctl:
                 return None
-            return [(n, True, 'main-program', None, detail) for n in lengths]
+            return [(None, detail) for _ in texts]
         act = os.path.join(self.created[0], 'act')
-        for j, n in enumerate(lengths):
+        outs = []
+        for j, text in enumerate(texts):
             try:
                 with open(os.path.join(act, 'ctl%d.txt' % j)) as f:
-                    if f.read() != text_of(n):
+                    if f.read() != text:
                         self._cleanup()
                         return None
             except OSError:
                 self._cleanup()
                 return None
-            obs, detail = None, None
             try:
                 with open(os.path.join(act, 'out%d.txt' % j)) as f:
-                    obs = ids_of_output(f.read())
+                    outs.append((f.read(), None))
             except OSError as ex:
-                detail = 'output file missing: %s' % ex
-            runs.append((n, True, 'main-program', obs, detail))
+                outs.append((None, 'output file missing: %s' % ex))
         self._cleanup()
-        return runs
+        return outs
+
+    def run(self, ranges, lengths, supplies):
+        """`filter -line-nums`: -> runs [(n, True, 'main-program:SUPPLY', ids | None, detail)] or None (control fails)"""
+        outs = self.run_texts(filter_src(ranges), [text_of(n) for n in lengths], supplies)
+        if outs is None:
+            return None
+        return [(n, True, 'main-program:' + sup, None if out is None else ids_of_output(out), detail)
+                for n, sup, (out, detail) in zip(lengths, supplies, outs)]
+
+
+def is_e2e(via):
+    return via.startswith('main-program')
+
+
+def gen_supplies(rng, k, choices=SUPPLIES):
+    # program output (stdout / run) gets half of the weight: it is the only producer of some string-source classes
+    return [rng.choice(['stdout', 'run']) if rng.chance(0.5) and 'stdout' in choices else rng.choice(choices) for _ in range(k)]
 
 
 def cNlist(xs):
@@ -210,11 +247,12 @@ def case_term(ranges, runs):
 
 
 def case_json(ranges, runs):
-    e2e = bool(runs) and runs[0][2] == 'main-program'
+    e2e = bool(runs) and is_e2e(runs[0][2])
     return {'level': 'line-nums', 'transformer': filter_src(ranges), 'ranges': [list(r) for r in ranges],
             'route': ('test case file run by the main program in process (one transformer object per text)' if e2e
                       else 'one transformer object applied to the texts in order'),
-            'test_case_file': E2E.case_text(ranges, [r[0] for r in runs]) if e2e else None,
+            'test_case_file': (E2E.case_text(filter_src(ranges), [text_of(r[0]) for r in runs],
+                                             [r[2].split(':', 1)[1] for r in runs]) if e2e else None),
             'runs_of_one_transformer_object_in_order': [
                 {'text_lines': n, 'final_newline': fnl, 'read_via': via,
                  'impl_output_line_numbers': obs, 'impl_exception': exc} for (n, fnl, via, obs, exc) in runs]}
@@ -297,16 +335,65 @@ def run_part2(ctx, res):
         ranges = [gen_range(rng, n) for _ in range(k)]
         lengths = [n] + [rng.randint(0, n) for _ in range(2)]
         rng.shuffle(lengths)
-        runs = e2e.run(ranges, lengths)
+        runs = e2e.run(ranges, lengths, gen_supplies(rng, len(lengths)))
         if runs is None:
             res.count('line-nums: main-program runs dropped because the control (same case without the filter) fails')
             continue
         cases.append((ranges, runs))
         res.count('line-nums: test case file run by the main program, %d range(s)' % k)
+        for r in runs:
+            res.count('line-nums: main program, text supplied by: ' + r[2].split(':', 1)[1])
         res.count('line-nums: applications of a transformer to a text', len(runs))
         if [1 for (m, _f, _v, obs, _e) in runs if obs is not None and 0 < len(obs) < m]:
             res.nontrivial.add(('e', tuple(ranges), tuple(lengths)))
+    # 5. `filter LINE-MATCHER` through the whole program with the same "how the text is supplied" dimension
+    #    (expected value: Model/Interval.v through Spec/C13.v check_lcase, as in part 1)
+    import c13
+    lm_impl = c13.Impl(tmp)
+    lm_cases = []  # (e, ids, iv, truth, out_ids, supply, detail, case file)
+    for j in range(60 if quick else 600):
+        n = rng.randint(0, 8)
+        e = c13.gen_lm(rng, rng.randint(1, 3), n)
+        id_lists = [[rng.below(len(c13.CONTENTS)) for _ in range(m)] for m in (n, rng.randint(0, n))]
+        supplies = gen_supplies(rng, len(id_lists), ['file', 'here', 'stdout', 'run', 'chain-identity'])
+        texts = [''.join(c13.CONTENTS[c] + '\n' for c in ids) for ids in id_lists]
+        fsrc = 'filter ' + c13.src_of(e)
+        outs = e2e.run_texts(fsrc, texts, supplies)
+        if outs is None:
+            res.count('line-matcher: main-program runs dropped because the control (same case without the filter) fails')
+            continue
+        for ids, sup, (out, detail) in zip(id_lists, supplies, outs):
+            iv, truth, _out_of_object = lm_impl.obs_lm(e, ids)
+            if out is None:
+                out_ids = [UNKNOWN_LM_ID]
+            else:
+                pieces = out.split('\n')
+                if pieces[-1] == '':
+                    pieces.pop()
+                out_ids = [c13.CONTENTS.index(x) if x in c13.CONTENTS else UNKNOWN_LM_ID for x in pieces]
+            lm_cases.append((e, ids, iv, truth, out_ids, sup, detail, E2E.case_text(fsrc, texts, supplies)))
+            res.count('line-matcher: main program, text supplied by: ' + sup)
+            if c13.nontrivial(e):
+                res.nontrivial.add(('le', repr(e), tuple(ids), sup))
     shutil.rmtree(tmp, ignore_errors=True)
+    res.evaluations += len(lm_cases)
+    cb, pb, errs = common.run_shards(WORK_PROP, ['Model.Interval', 'Spec.C13'], 'check_lcase',
+                                     [c13.lcase_term(*c[:5]) for c in lm_cases], tag='lcases_e2e')
+    res.errors += errs
+
+    def lm_json(c):
+        e, ids, iv, truth, out_ids, sup, detail, case_file = c
+        return {'level': 'line-matcher', 'route': 'test case file run by the main program in process',
+                'filter': c13.src_of(e), 'lines': [c13.CONTENTS[i] for i in ids], 'text_supplied_by': sup,
+                'impl_interval': str(iv), 'matcher_truth_per_line': truth,
+                'impl_output': [c13.CONTENTS[i] if i < len(c13.CONTENTS) else '<not an input line / no output>' for i in out_ids],
+                'impl_failure': detail, 'test_case_file': case_file}
+    for i in pb:
+        res.prop_failures.append(Failure('property', lm_json(lm_cases[i]),
+                                         'filter output (whole program) differs from the lines the real matcher accepts'))
+    for i in cb:
+        res.disagreements.append(Failure('correspondence', lm_json(lm_cases[i]),
+                                         'model filter output differs from the whole program\'s output'))
 
     res.evaluations += len(cases)
     res.rule += (' || part 2 (filter -line-nums): every single range (4 forms) with bounds in [-B,B] x every text of 0..B-2 lines; '
@@ -314,7 +401,9 @@ def run_part2(ctx, res):
                  '[-N-2,N+2], N <= 12; each transformer OBJECT is applied to several texts of different length in random '
                  'order (one case = one object); non-trivial := some application keeps a non-empty proper subset of the '
                  'lines; distinct := distinct (ranges, text lengths); plus random single ranges on texts of up to 43 lines, and test '
-                 'case files (`file out = -contents-of in -transformed-by filter -line-nums ...`) run by the whole program in process')
+                 'case files run by the whole program in process (`file out = SOURCE -transformed-by ( [PREVIOUS |] filter ... )`, both '
+                 '`filter -line-nums` and `filter LINE-MATCHER`), the text supplied as existing file / here-document / program '
+                 'stdout / output of a `run` transformer / output of a previous transformer')
     ex = cases[len(CORPUS) + 100]
     res.samples.append({'transformer': filter_src(cases[0][0]),
                         'runs (text lines -> kept line numbers)': [[n, obs] for (n, _f, _v, obs, _e) in cases[0][1]]})
@@ -343,8 +432,8 @@ def replay(ctx, payload):
     tmp = tempfile.mkdtemp(prefix='c13b-replay-', dir=ctx.work)
     im = LnImpl(tmp)
     stored = case['runs_of_one_transformer_object_in_order']
-    if stored and stored[0]['read_via'] == 'main-program':
-        runs = E2E(tmp).run(ranges, [r['text_lines'] for r in stored])
+    if stored and is_e2e(stored[0]['read_via']):
+        runs = E2E(tmp).run(ranges, [r['text_lines'] for r in stored], [r['read_via'].split(':', 1)[1] for r in stored])
         if runs is None:
             print('the control case (same test case without the filter) fails: not attributable to filter -line-nums')
             return 0
